@@ -344,11 +344,156 @@ def bfs(tier, blocking=False, shared_only=False):
     sut.w.close()
     return {"states": states, "transitions": transitions, "findings": findings, "depth": depth, "capped": capped, "distinct_states": len(seen), "calls": len(calls)}
 
+# ------------------------------------------------------------------------------------------------------
+# Two overlapping requests on the asyncio front end: every interleaving of the two handlers at their await points, up to a
+# deviation bound, must be answered like one of the two sequential orders (the reference is a map; a handler that suspends
+# between its look-up and its write would acknowledge a duplicate or lose an acknowledged write).
+OVERLAP = [
+    ([], "create-ma", "create-ma-d2"), ([], "create-ma", "create-ma"), ([], "create-ma", "create-mb-express"), ([], "create-ma", "describe-ma"), ([], "create-ma", "list"),
+    (["create-ma"], "delete-ma", "delete-ma"), (["create-ma"], "delete-ma", "describe-ma"), (["create-ma"], "delete-ma", "create-ma-d2"),
+    (["create-ma"], "update-ma-def", "delete-ma"), 
+    (["create-ma"], "start-ma-e1", "start-ma-e2-noinput"), (["create-ma", "start-ma-e1"], "descexec-ma-e1", "delete-ma"), (["create-ma", "start-ma-e1"], "listexec-ma", "start-ma-e2-noinput"),
+]
+
+def _run_controlled(loop, coro, choices, widths):
+    """Run coro on the (otherwise idle) loop one ready handle at a time; step k runs the choices[k]-th ready handle (default: the first = the loop's own FIFO order)."""
+    import threading, heapq
+    from asyncio import events
+    task = loop.create_task(coro)
+    loop._thread_id = threading.get_ident()
+    old = events._get_running_loop()
+    events._set_running_loop(loop)
+    step = 0
+    try:
+        while not task.done():
+            now = loop.time()
+            while loop._scheduled and loop._scheduled[0]._when <= now:
+                h = heapq.heappop(loop._scheduled); h._scheduled = False
+                if not h._cancelled:
+                    loop._ready.append(h)
+            ready = [h for h in loop._ready if not h._cancelled]
+            loop._ready.clear(); loop._ready.extend(ready)
+            if not ready:
+                if loop._scheduled:
+                    continue
+                raise RuntimeError("overlap: nothing ready but the requests are not answered")
+            i = choices[step] if step < len(choices) else 0
+            if i >= len(ready):
+                raise RuntimeError("overlap: replay diverged at step %d (%d ready, choice %d)" % (step, len(ready), i))
+            widths.append(len(ready))
+            h = ready[i]; del loop._ready[i]
+            h._run()
+            step += 1
+            if step > 2000:
+                raise RuntimeError("overlap: runaway")
+    finally:
+        events._set_running_loop(old)
+        loop._thread_id = None
+    return task.result()
+
+def _overlap_job(args):
+    tier, idx = args
+    import asyncio
+    from harness import world as W
+    setup, t1, t2 = OVERLAP[idx]
+    calls = {c["tag"]: c for c in alphabet(tier)}
+    sut = Sut()
+    loop = W._loop
+    # work handed to a thread pool completes in a later loop iteration, like a real executor, but deterministically
+    def run_in_executor(executor, fn, *a):
+        fut = loop.create_future()
+        def go():
+            try:
+                fut.set_result(fn(*a))
+            except BaseException as e:
+                fut.set_exception(e)
+        loop.call_soon(go)
+        return fut
+    loop.run_in_executor = run_in_executor
+    ref = Ref()
+    for tag in setup:
+        c = calls[tag]
+        exp = ref.expect(c, sut.w.clock.now + 1.0)
+        sut.call(c)
+        if exp[0] == "ok" and exp[2]:
+            exp[2]()
+    snap = sut.snapshot()
+    now = snap[3] + 1.0
+    c1, c2 = calls[t1], calls[t2]
+    # the two sequential orders according to the reference
+    allowed = []
+    for order in ((0, 1), (1, 0)):
+        r = ref.clone()
+        exps = [None, None]
+        for k in order:
+            c = (c1, c2)[k]
+            exps[k] = r.clone().expect(c, now)      # its answer checker stays bound to the store as it was before this call
+            e = r.expect(c, now)
+            if e[0] == "ok" and e[2]:
+                e[2]()
+        allowed.append((exps, r.canon()))
+    async def one(c):
+        headers = {"Content-Type": "application/x-amz-json-1.0", "x-amz-target": "AWSStepFunctions." + c["action"]}
+        r = await sut.api.client.post("/", data=json.dumps(c["params"]), headers=headers)
+        return r.status_code, await r.get_data(as_text=True)
+    async def both():
+        return await asyncio.gather(one(c1), one(c2))
+    bound = 1 if tier == "quick" else 2
+    stack = [((), 0)]
+    runs = 0
+    finding = None
+    outcomes = set()
+    while stack:
+        choices, cost = stack.pop()
+        sut.restore(snap)
+        sut.w.clock.now = now
+        widths = []
+        res = _run_controlled(loop, both(), list(choices), widths)
+        sut.w.run(max_steps=2000)
+        runs += 1
+        got = []
+        for st, text in res:
+            try:
+                js = json.loads(text)
+            except ValueError:
+                js = None
+            got.append((st, js, text))
+        dump = sut.dump()
+        ok = False
+        for exps, canon in allowed:
+            good = True
+            for k in (0, 1):
+                st, js, text = got[k]
+                e = exps[k]
+                if e[0] == "error":
+                    good = good and st == 400 and isinstance(js, dict) and js.get("__type") in e[1]
+                else:
+                    good = good and st == 200 and e[1](js if js is not None else (text.strip() or None))
+            if good and dump == canon:
+                ok = True
+        outcomes.add(json.dumps([[g[0], (g[1] or {}).get("__type") if isinstance(g[1], dict) else None] for g in got]))
+        if not ok and (finding is None or len(choices) < len(finding[1])):
+            finding = ("%s || %s answered %s / %s and left %s: not the result of either sequential order" % (t1, t2, got[0][2][:90].strip(), got[1][2][:90].strip(), dump[:200]), list(choices))
+        for k in range(len(choices), len(widths)):
+            if cost + 1 <= bound:
+                for alt in range(1, widths[k]):
+                    stack.append((tuple(choices) + (0,) * (k - len(choices)) + (alt,), cost + 1))
+    sut.w.close()
+    return {"pair": [setup, t1, t2], "runs": runs, "finding": finding, "outcomes": len(outcomes), "bound": bound}
+
 def run(tier, seed):
     cr = common.CheckResult(PROP)
     ctx = multiprocessing.get_context("fork")
     with ctx.Pool(2) as pool:
         ra, rb = pool.map(_bfs_job, [(tier, False), (tier, True)])
+    with ctx.Pool(common.JOBS) as pool:
+        ov = pool.map(_overlap_job, [(tier, i) for i in range(len(OVERLAP))], chunksize=1)
+    for o in ov:
+        if o["finding"]:
+            sig = "api|overlap-not-serializable|%s+%s|asyncio" % (o["pair"][1], o["pair"][2])
+            cr.add(sig, "asyncio front end, after %s: %s (interleaving %s)" % (" -> ".join(o["pair"][0]) or "(empty store)", o["finding"][0], o["finding"][1]),
+                   {"kind": "overlap", "property": PROP, "signature": sig, "pair_index": OVERLAP.index(tuple(o["pair"])) if tuple(o["pair"]) in OVERLAP else [list(x) for x in OVERLAP].index(o["pair"]),
+                    "choices": o["finding"][1]}, size=len(o["finding"][1]))
     for front, r in (("asyncio", ra), ("blocking", rb)):
         for sig, (detail, path) in r["findings"].items():
             s2 = sig + "|" + front
@@ -361,9 +506,12 @@ def run(tier, seed):
         "distinct_store_states": {"asyncio": ra["distinct_states"], "blocking": rb["distinct_states"]}, "bfs_depth": {"asyncio": ra["depth"], "blocking": rb["depth"]},
         "alphabet_size": ra["calls"], "capped": [x for x in (("asyncio" if ra["capped"] else None), ("blocking" if rb["capped"] else None)) if x],
         "exhaustive": not (ra["capped"] or rb["capped"]),
+        "overlapping_request_pairs": len(ov), "overlap_interleavings_run": sum(o["runs"] for o in ov), "overlap_deviation_bound": ov[0]["bound"] if ov else None,
+        "overlap_pairs_with_more_than_one_outcome": sum(1 for o in ov if o["outcomes"] > 1),
         "explanation": "breadth-first search from the empty store: in every reachable store state (canonical form = stored records without dates) every call of the alphabet is issued to the real "
                        "Quart (asyncio) and Flask (blocking) front ends backed by the real engine on the simulated broker (a StartExecution is run to quiescence); status, __type and body are "
-                       "compared with a two-map reference, the stores are compared before/after every error answer and with the reference after every success",
+                       "compared with a two-map reference, the stores are compared before/after every error answer and with the reference after every success; plus pairs of overlapping requests on the asyncio "
+                       "front end: the two handlers are stepped one ready loop callback at a time, every interleaving within the deviation bound from the loop's own order, answers and stores must equal one of the two sequential orders",
     }
     cr.assumptions = ["reference Ref in checks/c10.py (two maps + the documented error table; where AWS documents several plausible error types for a malformed field any of them is accepted)",
                       "Quart / Flask test clients stand in for HTTP"] + common.ASSUME_SIM[:1]
@@ -373,6 +521,10 @@ def _bfs_job(args):
     return bfs(args[0], blocking=args[1])
 
 def replay(rp):
+    if rp.get("kind") == "overlap":
+        o = _overlap_job(("thorough", rp["pair_index"]))
+        print(("REPRODUCED property=C10 %r" % (o["finding"],)) if o["finding"] else "not reproduced")
+        return 1 if o["finding"] else 0
     sut = Sut(blocking=rp["front"] == "blocking")
     calls = {c["tag"]: c for c in alphabet("quick")}
     ref = Ref()
